@@ -1,7 +1,7 @@
 #!/bin/bash
-# tools/twin_matrix.sh <out.log> : every refactoring twin under /verif/twins against the checks that read the
+# tools/twin_matrix.sh <out.log> [glob] : every twin under /verif/twins (default glob "*-r") against the checks that read the
 # files it touches (S checks always; K-based checks when it touches generator / codegen / compile code).
-out="$1"; : > "$out"
+out="$1"; : > "$out"; glob="${2:-*-r}"
 job() {
   diff="$1"; c="$2"
   d=$(mktemp -d /tmp/scr.XXXXXX); cp -r /repo/src "$d/src"
@@ -12,10 +12,11 @@ job() {
   rm -rf "$d"
 }
 export -f job
-for diff in /verif/twins/*-r/r*.diff; do
+for diff in /verif/twins/$glob/r*.diff; do
   checks="C07 C08 C09 C10 C12 C14 C15"
-  if grep -q "^+++ b/src/tensora/\(iteration_graph\|desugar\|codegen\|ir\|generate\|kernel_type\|problem\)" "$diff"; then checks="$checks C01 C05 C06 C16 C03"; fi
-  if grep -q "^+++ b/src/tensora/\(compile\|tensor.py\)" "$diff"; then checks="$checks C13 C11"; fi
+  case "$diff" in */F*-f/*) checks="$checks C13 C11";; esac
+  if grep -q "^+++ b/src/tensora/\(iteration_graph\|desugar\|codegen\|ir\|generate\|kernel_type\|problem\)" "$diff"; then checks="$checks C01 C02 C04 C05 C06 C16 C03"; fi
+  if grep -q "^+++ b/src/tensora/\(compile\|tensor.py\)" "$diff"; then case "$checks" in *C13*) ;; *) checks="$checks C13 C11";; esac; fi
   for c in $checks; do echo "$diff $c"; done
 done | xargs -P 5 -L 1 bash -c 'job $0 $1' >> "$out" 2>&1
 echo DONE >> "$out"
